@@ -223,6 +223,7 @@ def build_response(rng, ident, head_method=False, close_delimited_ok=False):
 def run_impl(ctx, cases, flavor="san", tag="S-connp-impl"):
     exe = vf.impl_driver(ctx, flavor)
     lines, bad = vf.run_sharded(ctx, exe, cases, tag)
+    lines, ctx.last_traces = vf.strip_traces(lines)
     return lines, bad
 
 
